@@ -434,3 +434,29 @@ WITNESSES += [
          new="    def lowest_index_form(term):\n        return str(term.substitute_contracted(return_sympy=True))\n\n"
              "    terms = list(expr.terms)\n    terms.sort(key=lowest_index_form)\n"),
 ]
+
+# ---------------------------------------------------------------------- round 5: the atoms()-ordered target list of wicks
+FU = "func.py"
+_WICKS_OLD = ("                target = _indices_on_single_object(expr)\n                result = Add(*[\n                    evaluate_deltas(\n"
+              "                        term, target_idx=target + [\n                            s for s in _indices_on_single_object(term)\n"
+              "                            if s not in target\n                        ]\n                    ) for term in Add.make_args(result)\n"
+              "                ])\n")
+_WICKS_ANCHOR = "def _contract_operator_string(op_string: list) -> Add:"
+
+
+def _wicks_helper(first_only):
+    sel = "[:1]" if first_only else ""
+    return ("def _evaluate_contraction_deltas(expr, contracted):\n"
+            f"    protected = _indices_on_single_object(expr){sel}\n    evaluated = []\n    for term in Add.make_args(contracted):\n"
+            "        own = [s for s in _indices_on_single_object(term) if s not in protected]\n"
+            "        evaluated.append(evaluate_deltas(term, target_idx=protected + own))\n    return Add(*evaluated)\n\n\n" + _WICKS_ANCHOR)
+
+
+WITNESSES += [
+    # the delta evaluation of wicks moves into a private helper (mirrors refactoring 5A5): the list still only serves membership tests
+    dict(id="c19-ok-wicks-delta-helper", prop="C19", file=FU, expect=None,
+         edits=[(_WICKS_OLD, "                result = _evaluate_contraction_deltas(expr, result)\n"), (_WICKS_ANCHOR, _wicks_helper(False))]),
+    # ... but only the first index of the atoms()-ordered list is protected
+    dict(id="c19-wicks-delta-helper-first", prop="C19", file=FU, expect="R19a",
+         edits=[(_WICKS_OLD, "                result = _evaluate_contraction_deltas(expr, result)\n"), (_WICKS_ANCHOR, _wicks_helper(True))]),
+]
